@@ -50,9 +50,14 @@ pub fn parse_local_segments(local: &str) -> Vec<LocalSegment> {
     normalized
         .split('.')
         .map(|part| {
-            if !part.is_empty() && part.chars().all(|c| c.is_ascii_digit()) {
-                LocalSegment::new_uint(part.parse().unwrap_or(0))
+            if !part.is_empty()
+                && part.chars().all(|c| c.is_ascii_digit())
+                && let Ok(num) = part.parse()
+            {
+                LocalSegment::new_uint(num)
             } else {
+                // also a numeric segment above u32 (zerv itself emits such segments, e.g.
+                // compact timestamps): kept as text, leading zeros stripped
                 LocalSegment::try_new_str(part.to_string()).unwrap()
             }
         })
@@ -78,13 +83,6 @@ impl FromStr for PEP440 {
                     .name("release")
                     .into_iter()
                     .flat_map(|m| m.as_str().split('.')),
-            )
-            .chain(
-                captures
-                    .name("local")
-                    .into_iter()
-                    .flat_map(|m| m.as_str().split(['.', '-', '_']))
-                    .filter(|part| part.chars().all(|c| c.is_ascii_digit())),
             );
         for field in numeric_fields {
             if field.parse::<u32>().is_err() {
